@@ -1130,7 +1130,11 @@ class NLDFSettings(BaseSettings):
         if self.rho_mult == "one":
             rho_mult = 1
         elif self.rho_mult == "expnt":
-            rho_mult = _get_ueg_expnt(self.theta_params[0], self.theta_params[2], rho)
+            if self.sl_level == "MGGA":
+                t0 = self.theta_params[2]
+            else:
+                t0 = self.theta_params[1]
+            rho_mult = _get_ueg_expnt(self.theta_params[0], t0, rho)
         else:
             raise NotImplementedError
         return rho_mult
